@@ -22,7 +22,7 @@ PROBES = ['retry-round', 'preloaded', 'announced-by-second-queue',
           'backend:dict', 'backend:disk', 'backend:redis', 'backend:cloud',
           'backend:cloud+mq']
 STATES_MEASURE = 'distinct (backend, per-message attempt-shape sequence)'
-BIAS = {'L': [1, 2, 2, 3], 'waits': (0, 1, 1, 5, 30, 30, 300),
+BIAS = {'p_split': 0.15, 'L': [1, 2, 2, 3], 'waits': (0, 1, 1, 5, 30, 30, 300),
         'hows': ['enqueue', 'enqueue', 'preload', 'announce'],
         'n_flush': [0, 0, 1, 1, 2], 'p_map': 0.3,
         'whole': ['temp', 'temp', 'temp', 'other', 'none', 'perm'],
@@ -104,7 +104,12 @@ def judge(scn, obs, world):
             known = [x for x in dh if x[2] < att['start_seq']]
             if known:
                 p, due, ps = known[-1]
-                flushed = any(ps < f['s0'] < att['start_seq'] for f in flushes)
+                # (a flush() still in progress - blocked on the queue lock
+                # or on a full store pool - when the message began to wait
+                # covers it too: it detaches the waiting entries only then)
+                flushed = any(f['s0'] < att['start_seq'] and
+                              (f['s1'] is None or f['s1'] > ps)
+                              for f in flushes)
                 if att['t0'] < due - EPS and not flushed:
                     d = det(how=m.get('how', 'enqueue'))
                     if prev is not None and not shifted and racing_fetch(
